@@ -44,7 +44,7 @@ def explore(res, tier, seed, model_ok=True):
     n = 120 if tier == 'quick' else 1500
     maxn = 11 if tier == 'quick' else 14
     res.rule = ('server byte streams (valid, protocol violations, close, rejected handshakes) with application reactions; each stream run as: one read, one byte per read, and random cut sets, '
-                'plus ALL 2^(n-1) cut sets of the post-handshake part for short streams (n <= %d); traces (events + bytes written) compared real-vs-real and real-vs-model; '
+                'UTF-8 boundary streams (text fragmented inside characters, invalid continuations after ASCII, pings between fragments) under every single cut; plus ALL 2^(n-1) cut sets of the post-handshake part for short streams (n <= %d); traces (events + bytes written) compared real-vs-real and real-vs-model; '
                 'non-trivial = segmentation with a cut inside a frame; distinct by (stream, cut set)') % maxn
     scs, groups = [], []
     for i in range(n):
@@ -69,6 +69,37 @@ def explore(res, tier, seed, model_ok=True):
             idxs.append(len(scs)); scs.append(Scenario(reads(limit_chunks(chunks)) + [('wait', 1, ('eof',))], {}, prate=0))
         groups.append((data, idxs))
         res.count('big_first_read')
+    # UTF-8 boundary stress: text messages, valid and invalid, fragmented at arbitrary BYTE positions (inside characters), control
+    # frames between the fragments; invalid ones have ASCII bytes pushed in between a lead byte and its continuation, the
+    # fragment boundary right after the lead byte.  Every single cut of the body, plus whole and bytewise delivery.
+    nutf = 0
+    for i in range(8 if tier == 'quick' else 60):
+        base = Scenario([], prate=0)
+        hs = base.good_reply()
+        txt = ''.join(rng.choice(['a', 'b', 'é', '€', '𐍈', 'ß', 'z']) for _ in range(rng.randint(3, 7))).encode('utf-8')
+        leads = [k for k, b in enumerate(txt) if b >= 0xc0]
+        invalid = rng.random() < 0.6 and leads
+        if invalid:
+            k = rng.choice(leads)
+            txt = txt[:k + 1] + bytes(rng.choice(b'abcxyz') for _ in range(rng.randint(1, 3))) + txt[k + 1:]
+            cutpos = [k + 1]
+        else:
+            cutpos = []
+        cutpos = sorted(set(cutpos + rng.sample(range(1, len(txt)), min(len(txt) - 1, rng.randint(0, 2)))))
+        parts = cut(txt, cutpos)
+        frames = []
+        for j, part in enumerate(parts):
+            frames.append(gen_core.server_frame(1 if j == 0 else 0, part, fin=1 if j == len(parts) - 1 else 0))
+            if j < len(parts) - 1 and rng.random() < 0.6:
+                frames.append(gen_core.server_frame(9, b'pi'))
+        body = b''.join(frames) + gen_core.server_frame(2, b'end')
+        idxs = []
+        for chunks in [[hs + body], [hs] + [body[k:k + 1] for k in range(len(body))]] + [[hs + body[:c], body[c:]] for c in range(1, len(body))]:
+            idxs.append(len(scs)); scs.append(Scenario(reads(chunks) + [('wait', 1, ('eof',))], {}, prate=0))
+        groups.append((hs + body, idxs))
+        nutf += len(idxs)
+        res.count('utf8_boundary_streams_invalid' if invalid else 'utf8_boundary_streams_valid')
+    res.exhaustive['single_cuts_of_utf8_boundary_streams'] = nutf
     # exhaustive cut sets for short post-handshake streams
     exh = 0
     for i in range(6 if tier == 'quick' else 12):
